@@ -219,3 +219,50 @@ class ZOps:
         if mnum.is_c(a): return Fraction(a) ** n if not (a == 0 and n < 0) else Fraction(0)
         p = z3.Product([mnum.rz(a)] * abs(n))
         return p if n > 0 else 1 / p
+
+# ---------------------------------------------------------------- translator validation (concrete mode vs native build)
+VALID_VOCAB = ['7', '12', '0.5', '3e2', '-4', '.25', ' ', '  ', '+', '-', '*', '/', '^', '**', '(', ')', ',', '%', 'to', 'm', 'km', 's', 'kg', 'N', 'ft', 'min', 'round', 'floor', '2', '1']
+def validate_pipeline(seed, n=60, profile='dev'):
+    """mirsym with all-concrete inputs is a MIR interpreter: seeded random strings over a lexeme vocabulary are pushed
+    through both the interpreter (real from_str, no cuts) and the native build (replay ops `tree` and `query`) and the
+    syntax trees and results are compared.  Returns the number of agreeing traces; raises on a disagreement."""
+    import random, replay_client
+    from models import tree as mt
+    rnd = random.Random(1000 + seed)
+    I = harness.interp_for(profile)
+    texts = []
+    for _ in range(n):
+        k = rnd.randint(1, 7)
+        texts.append(''.join(rnd.choice(VALID_VOCAB) for _ in range(k)))
+    texts += ['1 + 2 * 3 ^ 4 + 5', '2 * (3 + 4)', 'round(2.55 , 1) * 2', '3 m + 2 ft to cm', '(3 + 4 )', '10 %', '1 m m^2', '6 / 0', '0 ^ -1', '1 kg*m/s^2 to N']
+    native_t = replay_client.run_profile([{'op': 'tree', 'text': t} for t in texts], profile)
+    native_q = replay_client.run_profile([{'op': 'query', 'text': t} for t in texts], profile)
+    okc = 0
+    for t, nt, nq in zip(texts, native_t, native_q):
+        I.reset([])
+        I.path_state['lookup'] = None
+        try:
+            r = qrun.run_query(I, StrS.from_text(t))
+        except PathEnd as e:
+            if e.kind == 'panic' and ('panic' in nt or 'panic' in nq): okc += 1; continue
+            if 'Db::lookup' in str(e.info): continue      # a word that is looked up: environment, not compared
+            raise RuntimeError(f'translator validation: {t!r}: interpreter ended with {e.kind} {e.info}, native {str(nq)[:200]}')
+        rows = nt.get('ok')
+        if r.parse.variant != 'Ok' or rows is None:
+            if (r.parse.variant == 'Ok') != (rows is not None): raise RuntimeError(f'translator validation: {t!r}: parse outcome differs')
+            okc += 1; continue
+        mine = [(d, k, s_, e_) for d, k, s_, e_, _ in mt.dump_tree(r.tree.t)]
+        theirs = [(d, k, s_, e_) for d, k, s_, e_, _ in rows]
+        if mine != theirs: raise RuntimeError(f'translator validation: {t!r}: syntax tree differs\n  interpreter {mine}\n  native      {theirs}')
+        nres = nq.get('ok')
+        if nres is None: raise RuntimeError(f'translator validation: {t!r}: native query failed: {nq}')
+        if len(nres) != len(r.results): raise RuntimeError(f'translator validation: {t!r}: {len(r.results)} results vs native {len(nres)}')
+        for x, y in zip(r.results, nres):
+            if x.variant == 'Ok':
+                if 'ok' not in y: raise RuntimeError(f'translator validation: {t!r}: Ok vs native {y}')
+                v = mnum.rat_arg(I, x.items[0].items[0])
+                if Fraction(v) != rt.parse_frac(y['ok']['value']): raise RuntimeError(f'translator validation: {t!r}: value {v} vs native {y["ok"]["value"]}')
+            else:
+                if 'err' not in y or qrun.err_span(x) != (y['start'], y['end']): raise RuntimeError(f'translator validation: {t!r}: {qrun.err_kind(x)}{qrun.err_span(x)} vs native {y}')
+        okc += 1
+    return okc
